@@ -226,6 +226,9 @@ func TestC15(t *testing.T) {
 			case 0:
 			case 1:
 				body = []byte(bigBody)
+			case 2:
+				// beyond any "reasonable" buffer size: 1 MiB + 1 byte ... 3 MiB, ending in a recognisable tail
+				body = []byte(strings.Repeat(bigBody, 3)[:len(bigBody)+1+rng.IntN(2*len(bigBody)-1)] + "<tail>")
 			default:
 				body = []byte(strings.Repeat("b", 1+rng.IntN(3000)))
 			}
